@@ -110,6 +110,7 @@ m = {
     "checks": checks,
     "not_applicable": na,
     "notes": "All checks: exit 0 held on what was observed, exit 1 + VIOLATION line, exit 3 + INCONCLUSIVE line when too little was observed (not expected on the unchanged tree). VERIF_SEED selects the case lists.",
+    "not_applicable": [],
 }
 if not na:
     del m["not_applicable"]
